@@ -6,7 +6,7 @@
    sets and commutes with the reference operation, with the same return value.  Then the
    reference list itself is shown to behave as the property says (unique names, positions,
    shift by one, unknown names change nothing). *)
-From Coq Require Import List NArith Bool Arith Lia.
+From Coq Require Import List NArith Bool Arith Lia Permutation.
 From SV Require Import Bytes Ops.
 Import ListNotations.
 Local Open Scope nat_scope.
@@ -165,7 +165,8 @@ Proof.
   cbn [conc f_name]. destruct (beq (e_name e) n) eqn:E.
   - destruct t as [|g t']; cbn; auto.
   - rewrite IH. destruct (s_index n t) as [k|]; auto.
-    cbn [Nat.eqb]. destruct (Nat.eqb (S k) (length t)); reflexivity.
+    change (Nat.eqb (S (S k)) (S (length t))) with (Nat.eqb (S k) (length t)).
+    destruct (Nat.eqb (S k) (length t)); reflexivity.
 Qed.
 
 (* ------------------------------------------------------------------ the refinement *)
@@ -323,23 +324,11 @@ Proof.
   rewrite orb_true_iff, IH, beq_eq. tauto.
 Qed.
 
-Lemma names_update : forall n g sp,
-  names (s_update n g sp) =
-  match s_index n sp with
-  | Some k => firstn k (names sp) ++ match s_find n sp with Some e => [e_name (g e)] | None => [] end ++ skipn (S k) (names sp)
-  | None => names sp
-  end.
-Proof.
-  induction sp as [|e t IH]; cbn; auto.
-  destruct (beq (e_name e) n) eqn:E; cbn; auto.
-  rewrite IH. destruct (s_index n t) as [k|]; cbn; auto.
-Qed.
-
 (* an update that keeps the name keeps all names *)
 Lemma names_update_same : forall n g sp,
   (forall e, e_name (g e) = e_name e) -> names (s_update n g sp) = names sp.
 Proof.
-  intros n g sp Hg. induction sp as [|e t IH]; cbn; auto.
+  intros n g sp Hg. unfold names. induction sp as [|e t IH]; cbn; auto.
   destruct (beq (e_name e) n); cbn; [rewrite Hg|rewrite IH]; reflexivity.
 Qed.
 
@@ -369,7 +358,8 @@ Proof.
       destruct Hb as [->|Hb].
       * apply beq_neq in E. congruence.
       * apply Hb. left. auto.
-    + apply IH; auto. destruct Hb as [Hb|Hb]; auto. right. intro H. apply Hb. right. exact H.
+    + apply IH; auto. destruct Hb as [Hb|Hb]; [left; exact Hb|].
+      right. intro H. apply Hb. right. exact H.
 Qed.
 
 Lemma names_remove_incl : forall n sp x, In x (names (s_remove n sp)) -> In x (names sp).
@@ -385,30 +375,158 @@ Proof.
   intro Hin. apply names_remove_incl in Hin. contradiction.
 Qed.
 
-Lemma perm_move_up_aux : forall n p sp, Permutation.Permutation (names (s_move_up_aux n p sp)) (e_name p :: names sp).
+Lemma perm_move_up_aux : forall n p sp, Permutation (names (s_move_up_aux n p sp)) (e_name p :: names sp).
 Proof.
   intros n p sp. revert p. induction sp as [|e t IH]; intro p; cbn; auto.
   destruct (beq (e_name e) n); cbn.
-  - apply Permutation.perm_swap.
-  - eapply Permutation.perm_trans; [apply Permutation.perm_skip; apply IH|]. apply Permutation.perm_swap.
+  - apply perm_swap.
+  - apply perm_skip. apply IH.
 Qed.
 
-Lemma perm_move_up : forall n sp, Permutation.Permutation (names (s_move_up n sp)) (names sp).
+Lemma perm_move_up : forall n sp, Permutation (names (s_move_up n sp)) (names sp).
 Proof.
   intros n [|e t]; cbn; auto. destruct (beq (e_name e) n); cbn; auto. apply perm_move_up_aux.
 Qed.
 
-Lemma perm_move_down : forall n sp, Permutation.Permutation (names (s_move_down n sp)) (names sp).
+Lemma perm_move_down : forall n sp, Permutation (names (s_move_down n sp)) (names sp).
 Proof.
   induction sp as [|e t IH]; cbn; auto. destruct (beq (e_name e) n); cbn.
-  - destruct t; cbn; auto. apply Permutation.perm_swap.
-  - apply Permutation.perm_skip. exact IH.
+  - destruct t; cbn; auto. apply perm_swap.
+  - apply perm_skip. exact IH.
 Qed.
+
+Lemma NoDup_perm : forall (l l' : list bytes), Permutation l l' -> NoDup l' -> NoDup l.
+Proof. intros l l' P H. eapply Permutation_NoDup; [apply Permutation_sym; exact P|exact H]. Qed.
 
 (* names stay unique under every operation *)
 Theorem spec_step_nodup : forall sp o, NoDup (names sp) -> NoDup (names (snd (spec_step sp o))).
 Proof.
   intros sp o H. destruct o as [n c|a b c|a c nn d|n|n|n|n up]; cbn [spec_step].
   - destruct (s_exists n sp) eqn:E; cbn [snd]; auto.
-    unfold names. rewrite map_app. cbn. apply NoDup_app_iff_local.
-Abort.
+    unfold names. rewrite map_app. cbn.
+    apply (NoDup_perm _ (n :: map e_name sp)).
+    + apply Permutation_sym. apply Permutation_cons_append.
+    + constructor; auto. intro Hin. apply s_exists_In in Hin. congruence.
+  - destruct (negb (s_exists a sp)); cbn [snd]; auto.
+    destruct (negb (beq b a) && s_exists b sp) eqn:Eb; cbn [snd]; auto.
+    apply (NoDup_update_rename a b); auto.
+    apply andb_false_iff in Eb. destruct Eb as [Eb|Eb].
+    + left. apply negb_false_iff in Eb. apply beq_eq in Eb. exact Eb.
+    + right. intro Hin. apply s_exists_In in Hin. congruence.
+  - set (b := match nn with Some n => n | None => a end).
+    destruct (negb (s_exists a sp)); cbn [snd]; auto.
+    destruct (negb (beq b a) && s_exists b sp) eqn:Eb; cbn [snd]; auto.
+    apply (NoDup_update_rename a b); auto.
+    apply andb_false_iff in Eb. destruct Eb as [Eb|Eb].
+    + left. apply negb_false_iff in Eb. apply beq_eq in Eb. exact Eb.
+    + right. intro Hin. apply s_exists_In in Hin. congruence.
+  - destruct (s_exists n sp); cbn [snd]; auto. apply NoDup_remove. exact H.
+  - destruct (s_find n sp) as [e|]; cbn [snd]; auto. destruct (e_enabled e); cbn [snd]; auto.
+    rewrite names_update_same; auto.
+  - destruct (s_exists n sp); cbn [snd]; auto. rewrite names_update_same; auto.
+  - destruct (s_index n sp) as [k|]; cbn [snd]; auto. destruct up.
+    + destruct (Nat.eqb k 0); cbn [snd]; auto. eapply NoDup_perm; [apply perm_move_up|exact H].
+    + destruct (Nat.eqb (S k) (length sp)); cbn [snd]; auto. eapply NoDup_perm; [apply perm_move_down|exact H].
+Qed.
+
+Corollary history_nodup : forall ops, NoDup (names (snd (spec_trace [] ops))).
+Proof.
+  intro ops. assert (G : forall sp, NoDup (names sp) -> NoDup (names (snd (spec_trace sp ops)))).
+  { induction ops as [|o t IH]; intros sp H; cbn [spec_trace]; auto.
+    pose proof (spec_step_nodup sp o H) as H1. destruct (spec_step sp o) as [r sp1]. cbn [snd] in H1.
+    specialize (IH sp1 H1). destruct (spec_trace sp1 t) as [rs sp2]. exact IH. }
+  apply G. constructor.
+Qed.
+
+(* update/replace/enable/disable rewrite exactly one entry, in place *)
+Theorem s_update_in_place : forall n g sp k e,
+  s_index n sp = Some k -> s_find n sp = Some e ->
+  s_update n g sp = firstn k sp ++ g e :: skipn (S k) sp /\ nth_error sp k = Some e.
+Proof.
+  induction sp as [|x t IH]; cbn; intros k e Hi Hf; try discriminate.
+  destruct (beq (e_name x) n).
+  - inversion Hi; inversion Hf; subst. cbn. auto.
+  - destruct (s_index n t) as [k'|]; try discriminate. inversion Hi; subst.
+    destruct (IH k' e eq_refl Hf) as (E & N). cbn. rewrite E. auto.
+Qed.
+
+Lemma s_index_find : forall n sp k, s_index n sp = Some k -> exists e, s_find n sp = Some e /\ e_name e = n.
+Proof.
+  induction sp as [|x t IH]; cbn; intros k H; try discriminate.
+  destruct (beq (e_name x) n) eqn:E.
+  - exists x. split; auto. apply beq_eq. exact E.
+  - destruct (s_index n t) as [k'|]; try discriminate. eauto.
+Qed.
+
+(* move up = swap with the predecessor; move down = swap with the successor; nothing else moves *)
+Theorem s_move_up_swap : forall n sp k,
+  s_index n sp = Some (S k) ->
+  exists l1 x y l2, sp = l1 ++ x :: y :: l2 /\ length l1 = k /\ e_name y = n /\
+                    s_move_up n sp = l1 ++ y :: x :: l2.
+Proof.
+  intros n sp. destruct sp as [|p t]; cbn; intros k H; try discriminate.
+  destruct (beq (e_name p) n); try discriminate.
+  destruct (s_index n t) as [k'|] eqn:Ei; try discriminate. inversion H; subst k'. clear H.
+  revert p k Ei. induction t as [|e t IH]; intros p k Ei; cbn in Ei; try discriminate.
+  cbn [s_move_up_aux]. destruct (beq (e_name e) n) eqn:E.
+  - inversion Ei; subst. exists [], p, e, t. cbn. repeat split; auto. apply beq_eq. exact E.
+  - destruct (s_index n t) as [k'|] eqn:Ei'; try discriminate. inversion Ei; subst.
+    destruct (IH e k' eq_refl) as (l1 & x & y & l2 & E1 & E2 & E3 & E4).
+    exists (p :: l1), x, y, l2. cbn. rewrite E1, E4, E2. auto.
+Qed.
+
+Theorem s_move_down_swap : forall n sp k,
+  s_index n sp = Some k -> S k <> length sp ->
+  exists l1 x y l2, sp = l1 ++ x :: y :: l2 /\ length l1 = k /\ e_name x = n /\
+                    s_move_down n sp = l1 ++ y :: x :: l2.
+Proof.
+  induction sp as [|e t IH]; cbn; intros k Hi Hl; try discriminate.
+  destruct (beq (e_name e) n) eqn:E.
+  - inversion Hi; subst. destruct t as [|g t']; [cbn in Hl; congruence|].
+    exists [], e, g, t'. cbn. repeat split; auto. apply beq_eq. exact E.
+  - destruct (s_index n t) as [k'|] eqn:Ei; try discriminate. inversion Hi; subst.
+    destruct (IH k' eq_refl) as (l1 & x & y & l2 & E1 & E2 & E3 & E4); [lia|].
+    exists (e :: l1), x, y, l2. cbn. rewrite <- E1, E4, E2. auto.
+Qed.
+
+(* operations on unknown names return False and change nothing *)
+Theorem unknown_name_noop : forall sp o n,
+  s_exists n sp = false ->
+  match o with
+  | FUpdate a _ _ | FReplace a _ _ _ => a = n
+  | FRemove m | FEnable m | FDisable m | FMove m _ => m = n
+  | FAdd _ _ => False
+  end ->
+  spec_step sp o = (RBool false, sp).
+Proof.
+  intros sp o n H Ho. destruct o as [m c|a b c|a c nn d|m|m|m|m up]; cbn [spec_step]; try contradiction; subst.
+  - rewrite H. reflexivity.
+  - rewrite H. reflexivity.
+  - rewrite H. reflexivity.
+  - rewrite s_find_exists in H. destruct (s_find n sp); [discriminate|reflexivity].
+  - rewrite H. reflexivity.
+  - rewrite s_index_exists in H. destruct (s_index n sp); [discriminate|reflexivity].
+Qed.
+
+(* non-vacuity: a history that exercises collisions, a double disable and boundary moves *)
+Example history_example :
+  let a := [97%N] in let b := [98%N] in
+  let ops := [FAdd a 1; FAdd b 2; FAdd a 3; FDisable a; FDisable a; FUpdate a a 4; FMove a true; FMove b true;
+              FEnable a; FEnable a; FReplace b 5 (Some a) None; FRemove b; FRemove b] in
+  fst (run_trace [] ops) =
+    [RNone; RNone; RAlreadyExists; RBool true; RBool true; RBool true; RBool false; RBool true;
+     RBool true; RBool false; RAlreadyExists; RBool true; RBool false]
+  /\ abs (snd (run_trace [] ops)) = Some [mkE a 4 true None].
+Proof. vm_compute. split; reflexivity. Qed.
+
+Print Assumptions abs_iff.
+Print Assumptions step_refines.
+Print Assumptions trace_refines.
+Print Assumptions history_refines.
+Print Assumptions observers_agree.
+Print Assumptions spec_step_nodup.
+Print Assumptions history_nodup.
+Print Assumptions s_update_in_place.
+Print Assumptions s_move_up_swap.
+Print Assumptions s_move_down_swap.
+Print Assumptions unknown_name_noop.
